@@ -133,6 +133,23 @@ C02_Design ==
 C04_Design ==
     res.k = "hop" => (res.dest <=> (d.pk.src = FlowOf(cfg).dst /\ \E k \in 1..n : DestForm(cfg.v, sentNow[k], d.pk)))
 
+\* C11 at design level: a concurrent run B to the same target (its own echo id / reserved source port / IP-ID block /
+\* initial sequence number, as the allocators and sockets hand them out) never turns a genuine reply to A's probes into a hop.
+\* (udp/tcp: strict quoted-source checking, which is what RunTraceroute uses; sack: relaxed, ISNs more than 255 apart)
+ProbeB(v, b, t) ==
+    LET p == Probe(v, b, t) IN
+    CASE IsICMPv(v) -> [p EXCEPT !.eid = (p.eid + 1) % 65536, !.ipid = IF IsV6(v) THEN 0 ELSE (p.eid + 1) % 65536]
+      [] IsUDPv(v)  -> [p EXCEPT !.sport = p.sport + 1]
+      [] v = "tcp"  -> [p EXCEPT !.sport = p.sport + 1, !.ipid = (p.ipid + 255) % 65536, !.seq = Add32(p.seq, 7777)]
+      [] v = "tcp_paris" -> [p EXCEPT !.sport = p.sport + 1, !.seq = Add32(p.seq, 7777)]
+      [] v = "sack" -> [p EXCEPT !.sport = p.sport + 1, !.seq = Add32(p.seq, 1000)]
+SentB(c, k) == [j \in 1..k |-> ProbeB(c.v, c.b, c.rng[1] + j - 1)]
+FlowB(c) == LET p == ProbeB(c.v, c.b, c.rng[1]) IN
+            [src |-> p.src, dst |-> p.dst, sport |-> p.sport, dport |-> p.dport, eid |-> p.eid, v |-> p.v, isn |-> Add32(c.b.seq, 1000)]
+C11_Design ==
+    (d.g /\ (cfg.strict \/ cfg.v = "sack" \/ IsICMPv(cfg.v))) =>
+        Match(Par(cfg), FlowB(cfg), SentB(cfg, Count(cfg)), d.pk).k # "hop"
+
 \* a matcher never reports a TTL outside the probed range (validateProbe would make it fatal) and never errors fatally
 C09_Design == res.k # "fatal" /\ (res.k = "hop" => res.ttl \in cfg.rng[1]..cfg.rng[2])
 
